@@ -237,6 +237,68 @@ def limits_job(cfg):
     return n, res
 
 
+def fault_calls(cfg):
+    """(name, setter call, getter call, expected getter value)"""
+    out = []
+    for m in OM:
+        out.append((f'mode={m.name}', ('set_operation_mode', (m, 40, 70)), ('get_operation_mode', ()), m))
+    out.append(('export=123', ('set_grid_export_limit', (123,)), ('get_grid_export_limit', ()), 123))
+    if cfg['family'] != 'DT':
+        out.append(('dod=37', ('set_ongrid_battery_dod', (37,)), ('get_ongrid_battery_dod', ()), 37))
+    return out
+
+
+def run_fault(cfg, call, k, code):
+    """One setter on a configured object; request #k of the setter is answered with Modbus exception `code`.
+    If the setter nevertheless reports success, the getter must return what was set."""
+    name, (sname, sargs), (gname, gargs), want = call
+    r = make_rig(cfg, fill=lambda a: 0)
+    dev, inv = r.dev, r.inv
+    if r.call(inv.read_device_info)[0] != 'ok':
+        return None, 0
+    if sname == 'set_operation_mode':
+        modes = r.call(inv.get_operation_modes, True)
+        if modes[0] != 'ok' or sargs[0] not in modes[1]:
+            return None, 0
+    l0 = len(dev.log)
+    if k is not None:
+        dev.reject_at = {l0 + k: code}
+    res = r.call(getattr(inv, sname), *sargs)
+    nreq = len(dev.log) - l0
+    dev.reject_at = {}
+    if res[0] != 'ok':
+        return None, nreq      # the setter reported the failure: nothing is claimed
+    got = r.call(getattr(inv, gname), *gargs)
+    if got[0] != 'ok' or got[1] != want:
+        rq = dev.log[l0 + k] if k is not None and l0 + k < len(dev.log) else None
+        return (f'setter-succeeded-getter-differs/{sname}',
+                f'{sname}{sargs} returned normally although request #{k} ({rq}) was answered with exception code {code}; '
+                f'{gname}() -> {str(got)[:60]}'), nreq
+    return None, nreq
+
+
+def job_faults(cfg):
+    out = {}
+    n = 0
+    for call in fault_calls(cfg):
+        _, nreq = run_fault(cfg, call, None, 0)
+        n += 1
+        for k in range(nreq):
+            for code in (1, 3, 4, 6):
+                v, _ = run_fault(cfg, call, k, code)
+                n += 1
+                if v:
+                    key = f"{v[0]}/{cfg['name']}"
+                    out.setdefault(key, []).append(dict(key=key, clause='setter-succeeded-getter-differs',
+                                                        replay=dict(part='fault', cfg=cfg, call=call[0], k=k, code=code),
+                                                        detail=dict(cause=v[1], call=call[0], request_index=k, exception_code=code)))
+    res = []
+    for key, lst in out.items():
+        lst[0]['n'] = len(lst)
+        res.append(lst[0])
+    return n, res
+
+
 def sample_modes(name, prior, seq):
     cfg = [c for c in e2e_configs() if c['name'] == name][0]
     vio, n = run_modes(cfg, prior, seq)
@@ -269,7 +331,13 @@ def run(tier, seed, rep):
     for n, res in pmap(limits_job, lim):
         n_lim += n
         rep.add_many(res)
-    cov = dict(api_session_histories=_api['histories'], api_session_states=_api['states'],
+    n_flt = 0
+    fcfgs = [c for c in e2e_configs() if c['family'] == 'ET'] + \
+            [dict(name='DT', family='DT', tag='DTU', power=10000, refused=(), battery_mode=0, v2=False)]
+    for n, res in pmap(job_faults, fcfgs):
+        n_flt += n
+        rep.add_many(res)
+    cov = dict(rejected_request_runs=n_flt, api_session_histories=_api['histories'], api_session_states=_api['states'],
                states=len(jobs) * 8, transitions=n_e2e, executions=n_enc + n_e2e + n_lim, traces_validated_against_impl=n_e2e + n_lim,
                encoder_evaluations=n_enc, mode_changes=n_e2e, limit_round_trips=n_lim, exhaustive=True,
                bound='encoder level: power 1..100 x SoC 0..100 x every schedule type the sensor can hold before normalisation x '
@@ -289,6 +357,12 @@ def run(tier, seed, rep):
 
 
 def replay(r):
+    if r.get('part') == 'fault':
+        cfg = r['cfg']
+        cfg['refused'] = tuple(cfg['refused'])
+        call = [c for c in fault_calls(cfg) if c[0] == r['call']][0]
+        v, nreq = run_fault(cfg, call, r['k'], r['code'])
+        return dict(requests_of_the_setter=nreq, violations=[v] if v else [])
     if r.get('part') == 'api-session':
         from .. import api_sessions
         out = api_sessions.replay(r)
